@@ -58,6 +58,7 @@ IsEv(name) == l <= Len(Trace) /\ Trace[l].ev = name
 Cfg(e) == IF e = 0 THEN cfg.A ELSE cfg.B
 UseIL == cfg.A.il /\ cfg.B.il
 Get(f, k, d) == IF k \in DOMAIN f THEN f[k] ELSE d
+Upd(f, k, v) == (k :> v) @@ f
 V(mon, w) == [mon |-> mon, line |-> l, scen |-> scen, w |-> w]
 MaxI(a, b) == IF a >= b THEN a ELSE b
 MinI(a, b) == IF a <= b THEN a ELSE b
@@ -70,7 +71,8 @@ SeqSet(s) == {s[i] : i \in DOMAIN s}
 \*       incn     - <<ep,sid>> -> incarnation counter (open/accept events)
 MiscInit == [probe |-> [e \in EP |-> -1], thr |-> <<>>, cbs |-> <<>>, ackDue |-> [e \in EP |-> -1],
              incn |-> <<>>, fwdMax |-> [e \in EP |-> -1],
-             nack |-> [line |-> 0, to |-> -1, set |-> {}, hb |-> FALSE], teardown |-> FALSE, shutAt |-> <<>>, shutRet |-> <<>>, closedInc |-> <<>>, txn |-> [e \in EP |-> 0]]
+             nack |-> [line |-> 0, to |-> -1, set |-> {}, hb |-> FALSE], teardown |-> FALSE, shutAt |-> <<>>, shutRet |-> <<>>, closedInc |-> <<>>, wdl |-> <<>>, rdl |-> <<>>, reqs |-> <<>>, gen |-> <<>>, performed |-> {}, genAtRx |-> <<>>, rsGen |-> <<>>,
+             pendReads |-> <<>>, txn |-> [e \in EP |-> 0]]
 
 InitVars ==
   /\ scen = "" /\ cfg = [none |-> TRUE]
@@ -124,7 +126,7 @@ WriteViol(e) ==
 \* withdrawn by the "write" event logged at the call's return (its linearization point for errors).
 TrWCall ==
   /\ IsEv("wcall")
-  /\ msg' = (E.id :> (E @@ [inc |-> Get(misc.incn, <<E.ep, E.sid>>, 0), callLine |-> l])) @@ msg
+  /\ msg' = (E.id :> (E @@ [inc |-> Get(misc.incn, <<E.ep, E.sid>>, 0), callLine |-> l, snapSt |-> IF sn[E.ep] = NoSnap THEN "none" ELSE sn[E.ep].st])) @@ msg
   /\ LET k == <<E.ep, E.sid>> IN
        order' = IF E.len > 0 THEN (k :> Append(Get(order, k, <<>>), E.id)) @@ order ELSE order
   /\ step' = E
@@ -133,12 +135,23 @@ TrWCall ==
 
 TrWrite ==
   /\ IsEv("write")
-  /\ msg' = (E.id :> (E @@ [inc |-> msg[E.id].inc, callLine |-> msg[E.id].callLine])) @@ msg
+  /\ msg' = (E.id :> (E @@ [inc |-> msg[E.id].inc, callLine |-> msg[E.id].callLine, snapSt |-> msg[E.id].snapSt])) @@ msg
   /\ LET k == <<E.ep, E.sid>> IN
        order' = IF ~E.ok /\ E.len > 0
                 THEN (k :> SelectSeq(Get(order, k, <<>>), LAMBDA x : x # E.id)) @@ order
                 ELSE order
   /\ viol' = viol \cup WriteViol(E)
+              \cup (IF E.ok /\ sn[E.ep] # NoSnap /\ sn[E.ep].st # "established" /\ msg[E.id].snapSt # "established"
+                    THEN {V("C18_WriteNotEstablishedRejected", <<E.ep, E.sid, E.id, sn[E.ep].st>>)} ELSE {})
+              \* blocking-write mode: the call returns only after everything written before it was handed over
+              \* for transmission (every earlier accepted message has been put on the wire at least once)
+              \cup (IF E.ok /\ Cfg(E.ep).bw
+                    THEN LET earlier == {id \in DOMAIN msg : msg[id].ep = E.ep /\ msg[id].ok /\ msg[id].len > 0 /\ msg[id].callLine < msg[E.id].callLine}
+                             unsent == {id \in earlier : ~\E t \in DOMAIN ch[E.ep] : ch[E.ep][t].id = id /\ ch[E.ep][t].e}
+                         IN IF unsent # {} THEN {V("C18_BlockingWriteWaits", <<E.ep, E.id, CHOOSE id \in unsent : TRUE>>)} ELSE {}
+                    ELSE {})
+              \cup (IF ~E.ok /\ E.err \in {"deadline", "ctx"} /\ Get(misc.wdl, <<E.ep, E.sid>>, 0) > 0 /\ E.t < misc.wdl[<<E.ep, E.sid>>]
+                    THEN {V("C18_WriteDeadlineEarly", <<E.ep, E.id, E.t, misc.wdl[<<E.ep, E.sid>>]>>)} ELSE {})
               \cup (IF E.ok /\ Get(misc.closedInc, <<E.ep, E.sid>>, 0) >= msg[E.id].inc /\ msg[E.id].inc > 0
                     THEN {V("C18_WriteOnClosedStreamRejected", <<E.ep, E.sid, E.id>>)} ELSE {})
               \cup (IF E.ok /\ E.ep \in DOMAIN misc.shutAt /\ msg[E.id].callLine > misc.shutAt[E.ep]
@@ -170,6 +183,10 @@ ReadViol(e) ==
                                    /\ ~msg[sent[i]].unord /\ (msg[sent[i]].rtype = 0 \/ msg[sent[i]].ppi = 50)}
   IN
   IF ~e.ok THEN
+    \* C18: a read deadline makes the blocked read return at the deadline, not before
+    (IF e.err = "deadline" /\ Get(misc.rdl, k, 0) > 0 /\ e.t # misc.rdl[k] /\ "async" \in DOMAIN e
+     THEN {V("C18_ReadDeadlineInstant", <<e.ep, e.sid, e.t, misc.rdl[k]>>)} ELSE {})
+    \cup
     \* C14: end-of-file only after the writer closed this incarnation, and only after every message it wrote
     (IF e.err = "eof" /\ ~misc.teardown
      THEN LET rinc == Get(misc.incn, k, 0)
@@ -199,19 +216,21 @@ ReadSpec(e) ==
 TrRead ==
   /\ IsEv("read")
   /\ LET k == <<E.ep, E.sid>>
+         deferred == "async" \in DOMAIN E
          x == ReadSpec(E)
          specId == IF x[2].kind = "none" THEN 0 ELSE (CHOOSE c \in x[2].S : TRUE).m
-         drift == IF E.ok THEN (x[2].kind = "none" \/ specId # E.id)
+         drift == IF deferred THEN FALSE
+                  ELSE IF E.ok THEN (x[2].kind = "none" \/ specId # E.id)
                   ELSE IF E.err = "short" THEN x[2].kind # "short" \/ x[2].n # E.len ELSE FALSE
      IN
        /\ reads' = (k :> Append(Get(reads, k, <<>>), E)) @@ reads
-       /\ rs' = IF E.ok /\ ~drift THEN (k :> x[1]) @@ rs ELSE rs
+       /\ rs' = IF E.ok /\ ~drift /\ ~deferred THEN (k :> x[1]) @@ rs ELSE rs
+       /\ misc' = IF deferred THEN [misc EXCEPT !.pendReads = Append(@, E)] ELSE misc
        /\ viol' = viol \cup ReadViol(E)
                    \cup (IF drift THEN {V("C01_ReadNext", <<E.ep, E.sid, E.id, specId, E.err>>)} ELSE {})
-                   \cup (IF ~E.ok /\ E.err = "short" /\ x[2].kind = "short" /\ FALSE THEN {} ELSE {})
-  /\ step' = E
+  /\ step' = IF "async" \in DOMAIN E THEN step ELSE E
   /\ l' = l + 1
-  /\ UNCHANGED <<scen, cfg, msg, order, ch, hi, pkt, rcvd, skipTo, ackCum, ackGap, arw, outst, lastSack, sackEv, sn, newData, misc, acc>>
+  /\ UNCHANGED <<scen, cfg, msg, order, ch, hi, pkt, rcvd, skipTo, ackCum, ackGap, arw, outst, lastSack, sackEv, sn, newData, acc>>
 
 (***************************************************************************)
 (* Wire: packet header written by an endpoint (or forged by the harness)   *)
@@ -281,7 +300,13 @@ DataViol(c) ==
           THEN LET same == {id \in DOMAIN msg : msg[id].ep = e /\ msg[id].sid = c.sid /\ msg[id].inc = m.inc /\ msg[id].ok /\ msg[id].len > 0
                                                 /\ msg[id].unord = m.unord /\ msg[id].callLine < m.callLine}
                    seq == IF c.il THEN c.mid ELSE c.ssn
-               IN IF seq # Cardinality(same) THEN {V("C14_SequenceNumber", <<e, c.sid, c.id, seq, Cardinality(same), m.inc>>)} ELSE {}
+                   empties == {id \in DOMAIN msg : msg[id].ep = e /\ msg[id].sid = c.sid /\ msg[id].inc = m.inc /\ msg[id].ok /\ msg[id].len = 0
+                                                   /\ msg[id].unord = m.unord /\ msg[id].callLine < m.callLine}
+               IN IF seq # Cardinality(same)
+                  THEN {V("C14_SequenceNumber", <<e, c.sid, c.id, seq, Cardinality(same), m.inc>>)}
+                       \cup (IF empties # {} /\ seq = Cardinality(same) + Cardinality(empties)
+                             THEN {V("C18_EmptyWriteNoEffect", <<e, c.sid, c.id, seq, Cardinality(same)>>)} ELSE {})
+                  ELSE {}
           ELSE {})
     \cup (IF known /\ m.rtype = 1 /\ m.ppi # 50 /\ ntx > m.rval + 1 THEN {V("C06_RexmitCap", <<e, c.tsn, c.id, ntx, m.rval, IF m.len > c.len THEN "fragmented" ELSE "whole">>)} ELSE {})
     \cup (IF known /\ m.rtype = 2 /\ m.ppi # 50 /\ late > 1 THEN {V("C06_Lifetime", <<e, c.tsn, c.id, late, m.rval, IF m.len > c.len THEN "fragmented" ELSE "whole">>)} ELSE {})
@@ -389,9 +414,38 @@ TrChunkShutdown ==
   /\ l' = l + 1
   /\ UNCHANGED <<scen, cfg, msg, order, reads, ch, hi, rcvd, skipTo, ackCum, ackGap, arw, outst, lastSack, sackEv, sn, step, newData, misc, rs, acc>>
 
+\* --- RECONFIG written by endpoint e: outgoing reset requests (C14: ordered after the streams' data)
+\*     and responses ("performed" = the receiver reset the incoming streams: a later chunk on that
+\*     identifier belongs to a new incarnation)
+RECURSIVE RecoFold(_, _, _, _)
+RecoFold(m, e, ps, i) ==
+  IF i > Len(ps) THEN m
+  ELSE LET p == ps[i] IN
+    IF p.p = "req" THEN RecoFold([m EXCEPT !.reqs = Upd(@, <<e, p.rsn>>, p.sids)], e, ps, i + 1)
+    ELSE IF p.p = "resp" /\ p.result = 1 /\ <<Peer(e), p.rsn>> \in DOMAIN m.reqs /\ <<e, p.rsn>> \notin m.performed
+    THEN LET sids == SeqSet(m.reqs[<<Peer(e), p.rsn>>]) IN
+         RecoFold([m EXCEPT !.gen = [k \in DOMAIN @ \cup {<<e, x>> : x \in sids} |->
+                                       IF k[1] = e /\ k[2] \in sids THEN Get(@, k, 0) + 1 ELSE @[k]],
+                            !.performed = @ \cup {<<e, p.rsn>>}], e, ps, i + 1)
+    ELSE RecoFold(m, e, ps, i + 1)
+RecoViol(c) ==
+  LET e == c.ep
+      reqs == {c.params[i] : i \in {j \in DOMAIN c.params : c.params[j].p = "req"}}
+  IN UNION {LET late == {t \in DOMAIN ch[e] : ch[e][t].sid \in SeqSet(r.sids) /\ t > r.last} IN
+            (IF late # {} THEN {V("C14_ResetAfterData", <<e, r.rsn, r.last, Min(late)>>)} ELSE {})
+            \cup (IF r.last > hi[e] THEN {V("C14_ResetLastTsn", <<e, r.rsn, r.last, hi[e]>>)} ELSE {})
+            : r \in reqs}
+TrChunkReconfig ==
+  /\ IsEv("c") /\ E.k = "reconfig" /\ ~pkt[E.pid].forged /\ "bad" \notin DOMAIN E
+  /\ pkt' = [pkt EXCEPT ![E.pid].chunks = Append(@, E)]
+  /\ misc' = RecoFold(misc, E.ep, E.params, 1)
+  /\ viol' = viol \cup RecoViol(E)
+  /\ l' = l + 1
+  /\ UNCHANGED <<scen, cfg, msg, order, reads, ch, hi, rcvd, skipTo, ackCum, ackGap, arw, outst, lastSack, sackEv, sn, step, newData, rs, acc>>
+
 \* --- any other chunk (handshake, reconfig, shutdown, abort, heartbeat ...): stored with the packet
 TrChunkOther ==
-  /\ IsEv("c") /\ (pkt[E.pid].forged \/ "bad" \in DOMAIN E \/ E.k \notin (DataKinds \cup {"sack", "fwd", "ifwd", "shutdown"}))
+  /\ IsEv("c") /\ (pkt[E.pid].forged \/ "bad" \in DOMAIN E \/ E.k \notin (DataKinds \cup {"sack", "fwd", "ifwd", "shutdown", "reconfig"}))
   /\ pkt' = [pkt EXCEPT ![E.pid].chunks = Append(@, E)]
   /\ l' = l + 1
   /\ UNCHANGED <<scen, cfg, msg, order, reads, ch, hi, rcvd, skipTo, ackCum, ackGap, arw, outst, lastSack, sackEv, sn, step, newData, misc, rs, acc, viol>>
@@ -436,7 +490,7 @@ TrRx ==
        \* C19: data handed to an established endpoint must be acknowledged within 200 ms
        /\ misc' = [(IF live /\ dataT # {} /\ sn[to] # NoSnap /\ sn[to].st = "established" /\ misc.ackDue[to] < 0
                    THEN [misc EXCEPT !.ackDue[to] = E.t + 200] ELSE misc)
-                  EXCEPT !.nack = [line |-> l, to |-> to, set |-> newly,
+                  EXCEPT !.genAtRx = misc.gen, !.nack = [line |-> l, to |-> to, set |-> newly,
                                    hb |-> live /\ ChunksOfKind(p, {"hback"}) # {}]]
        /\ viol' = viol \cup AckLate(E.t)
   /\ step' = E
@@ -453,7 +507,6 @@ Established(s) == s.st \in {"established", "shutdownPending", "shutdownReceived"
 RChunk(c) == [tsn |-> c.tsn, seq |-> IF c.il THEN c.mid ELSE c.ssn, fi |-> IF c.il THEN c.fsn ELSE c.fi,
               b |-> c.b, e |-> c.e, len |-> c.len, ppi |-> c.ppi, u |-> c.u, il |-> c.il, m |-> c.id]
 PrevRcum(e) == IF sn[e] = NoSnap THEN -1 ELSE sn[e].rcum
-Upd(f, k, v) == (k :> v) @@ f
 
 \* forward-TSN applied to the specification's reassembly states of endpoint e (repaired semantics:
 \* every listed stream is purged whether or not the application has created / configured it)
@@ -480,20 +533,41 @@ RxFold(st, e, s, chunks, i) ==
     IF c.k \in DataKinds /\ "bad" \notin DOMAIN c THEN
       IF c.tsn \notin acc[e] /\ c.tsn \notin st.seen
          /\ (c.tsn \in SeqSet(s.held) \/ (c.tsn <= s.rcum /\ c.tsn > PrevRcum(e)))
-      THEN LET k == <<e, c.sid>> IN
-           RxFold([R |-> Upd(st.R, k, ReasmPush(Get(st.R, k, ReasmInit), RChunk(c))[1]), seen |-> st.seen \cup {c.tsn}],
-                  e, s, chunks, i + 1)
+      THEN LET k == <<e, c.sid>>
+               \* the incoming stream was reset since this reassembly state was started: new incarnation
+               fresh == Get(st.G, k, 0) < Get(misc.genAtRx, k, 0)
+               r0 == IF fresh THEN ReasmInit ELSE Get(st.R, k, ReasmInit)
+           IN RxFold([R |-> Upd(st.R, k, ReasmPush(r0, RChunk(c))[1]), seen |-> st.seen \cup {c.tsn},
+                      G |-> IF fresh THEN Upd(st.G, k, misc.genAtRx[k]) ELSE st.G],
+                     e, s, chunks, i + 1)
       ELSE RxFold(st, e, s, chunks, i + 1)
     ELSE IF c.k \in {"fwd", "ifwd"} /\ "bad" \notin DOMAIN c /\ c.cum > PrevRcum(e) /\ Established(s)
     THEN RxFold([st EXCEPT !.R = FwdAll(st.R, e, c)], e, s, chunks, i + 1)
     ELSE RxFold(st, e, s, chunks, i + 1)
+
+\* reads that returned while a step was still open (blocked readers woken by the arrival) are applied
+\* to the specification's reassembly state after the step's chunks: <<R, violations>>
+RECURSIVE ApplyReads(_, _, _, _)
+ApplyReads(R, rds, i, vs) ==
+  IF i > Len(rds) THEN <<R, vs>>
+  ELSE LET e == rds[i]
+           k == <<e.ep, e.sid>>
+           x == ReasmRead(Get(R, k, ReasmInit), IF e.ok THEN e.len ELSE e.buf)
+           specId == IF x[2].kind = "none" THEN 0 ELSE (CHOOSE c \in x[2].S : TRUE).m
+           drift == IF e.ok THEN (x[2].kind = "none" \/ specId # e.id)
+                    ELSE IF e.err = "short" THEN x[2].kind # "short" \/ x[2].n # e.len ELSE FALSE
+       IN ApplyReads(IF e.ok /\ ~drift THEN Upd(R, k, x[1]) ELSE R, rds, i + 1,
+                     vs \cup (IF drift THEN {V("C01_ReadNext", <<e.ep, e.sid, e.id, specId, e.err>>)} ELSE {}))
 
 \* streams that were (re-)registered since the previous snapshot start a new incarnation
 NewlyRegistered(e, s) == {sid \in SeqSet(s.reg) : sn[e] # NoSnap /\ sid \notin SeqSet(sn[e].reg)}
 RxResult(e, s) ==
   LET R0 == [k \in DOMAIN rs |-> IF k[1] = e /\ k[2] \in NewlyRegistered(e, s) THEN ReasmInit ELSE rs[k]]
       live == step.ev = "rx" /\ step.to = e /\ step.ok /\ step.pid \in DOMAIN pkt /\ AcceptCk(pkt[step.pid], e) /\ pkt[step.pid].genuine
-  IN IF live THEN RxFold([R |-> R0, seen |-> {}], e, s, pkt[step.pid].chunks, 1) ELSE [R |-> R0, seen |-> {}]
+      y == IF live THEN RxFold([R |-> R0, seen |-> {}, G |-> misc.rsGen], e, s, pkt[step.pid].chunks, 1) ELSE [R |-> R0, seen |-> {}, G |-> misc.rsGen]
+      mine == SelectSeq(misc.pendReads, LAMBDA r : r.ep = e)
+      z == ApplyReads(y.R, mine, 1, {})
+  IN [R |-> z[1], seen |-> y.seen, G |-> y.G, rv |-> z[2]]
 
 \* ---- sender-side accounting (C15) ----------------------------------------------------------
 IncOf(e, sid) == Get(misc.incn, <<e, sid>>, 0)
@@ -605,8 +679,9 @@ SnapStep(s, changed) ==
   /\ acc' = [acc EXCEPT ![e] = @ \cup x.seen]
   /\ newData' = [newData EXCEPT ![e] = <<>>]
   /\ sackEv' = [sackEv EXCEPT ![e] = <<>>]
-  /\ misc' = [misc EXCEPT !.cbs = [k \in DOMAIN @ |-> IF k[1] = e THEN 0 ELSE @[k]], !.txn[e] = 0]
-  /\ viol' = viol \cup SnapViol(s, x.R) \cup AckLate(s.t) \cup CkViol(e, changed)
+  /\ misc' = [misc EXCEPT !.cbs = [k \in DOMAIN @ |-> IF k[1] = e THEN 0 ELSE @[k]], !.txn[e] = 0, !.rsGen = x.G,
+                           !.pendReads = SelectSeq(@, LAMBDA r : r.ep # e)]
+  /\ viol' = viol \cup SnapViol(s, x.R) \cup AckLate(s.t) \cup CkViol(e, changed) \cup x.rv
 
 TrSnap ==
   /\ IsEv("snap")
@@ -660,6 +735,8 @@ TrApi ==
                [] E.op \in {"shutdown-call", "close-call", "abort-call", "connfail"} ->
                     [misc EXCEPT !.teardown = TRUE, !.shutAt = IF E.op = "shutdown-call" THEN Upd(@, E.ep, l) ELSE @]
                [] E.op = "shutdown-ret" -> [misc EXCEPT !.shutRet = Upd(@, E.ep, E.ok)]
+               [] E.op = "setwritedeadline" -> [misc EXCEPT !.wdl = Upd(@, <<E.ep, E.sid>>, E.at)]
+               [] E.op = "setreaddeadline" -> [misc EXCEPT !.rdl = Upd(@, <<E.ep, E.sid>>, E.at)]
                [] E.op = "closestream" /\ E.ok -> [misc EXCEPT !.closedInc = Upd(@, <<E.ep, E.sid>>, Get(misc.incn, <<E.ep, E.sid>>, 0))]
                [] OTHER -> misc
   /\ viol' = viol \cup AckLate(E.t) \cup ApiViol(E)
@@ -767,7 +844,7 @@ TrPassive ==
   /\ l' = l + 1
   /\ UNCHANGED <<scen, cfg, msg, order, reads, ch, hi, pkt, rcvd, skipTo, ackCum, ackGap, arw, outst, lastSack, sackEv, sn, newData, misc, rs, acc, viol>>
 
-Next == TrCfg \/ TrWCall \/ TrWrite \/ TrRead \/ TrTx \/ TrForge \/ TrChunkData \/ TrChunkSack \/ TrChunkFwd \/ TrChunkShutdown \/ TrChunkOther
+Next == TrCfg \/ TrWCall \/ TrWrite \/ TrRead \/ TrTx \/ TrForge \/ TrChunkData \/ TrChunkSack \/ TrChunkFwd \/ TrChunkShutdown \/ TrChunkReconfig \/ TrChunkOther
         \/ TrRx \/ TrSnap \/ TrSame \/ TrEnd \/ TrApi \/ TrCb \/ TrTick \/ TrExpect \/ TrDiff \/ TrHsFinal \/ TrHsSpecial \/ TrShutEnd \/ TrPassive
 
 Spec == Init /\ [][Next]_vars
